@@ -482,7 +482,9 @@ BAD_OPTS = [{'trivia': 'bogus'}, {'nosuchoption': 1}, {'pars': 'x'}, {'pep8space
             {'trivia': (1, 2, 3)}, {'set_norm': 'x'}, {'args_as': 'nonsense'}, {'coerce': False}]
 WRONG_POOL = {'expr': ('stmt', 'pattern', 'keyword', 'comprehension'), 'target': ('stmt', 'comprehension'),
               'stmt': ('keyword', 'comprehension', 'withitem', 'match_case', 'excepthandler'),
-              'arg': ('stmt', 'keyword'), 'keyword': ('stmt', 'comprehension'), 'alias': ('stmt', 'keyword'),
+              'arg': ('stmt', 'keyword', 'expr'), 'keyword': ('stmt', 'comprehension', 'expr', 'expr'), 'alias': ('stmt', 'keyword', 'expr'),
+              'arglike': ('stmt', 'comprehension', 'withitem'), 'cmpelt': ('stmt', 'keyword'), 'mmapelt': ('stmt', 'keyword', 'expr'),
+              'attrelt': ('stmt', 'comprehension'), 'argelt': ('stmt', 'comprehension'),
               'alias_from': ('stmt', 'keyword'), 'withitem': ('stmt', 'keyword'), 'excepthandler': ('match_case', 'expr'),
               'excepthandler_star': ('match_case', 'expr'), 'match_case': ('excepthandler', 'expr'),
               'pattern': ('stmt', 'comprehension', 'keyword'), 'comprehension': ('stmt', 'keyword'),
